@@ -146,6 +146,7 @@ func (P *Prog) verifyFunc(key string, c11 bool) (res *FuncResult) {
 	}
 	x.stack = []*ssa.Function{fn}
 	afterEntry := st.clone()
+	localHits := map[string]int{}
 	exitChecks := func(k, n int, r *retInfo) {
 		if spec == nil {
 			return
@@ -193,6 +194,7 @@ func (P *Prog) verifyFunc(key string, c11 bool) (res *FuncResult) {
 				}()
 				p, alt := x.evalBoolAlt(post, c.Expr)
 				x.obligeAlt(fr, r.st, "ensureslocal:"+c.Label+sfx, "ensures", p, alt, c)
+				localHits[c.Label]++
 			}()
 		}
 	}
@@ -200,6 +202,14 @@ func (P *Prog) verifyFunc(key string, c11 bool) (res *FuncResult) {
 	x.em.anc = ancestors(fn)
 	out, _ := x.runBodyWith(fr, st, exitChecks)
 	x.em.setTag(-2)
+	if spec != nil {
+		for _, c := range spec.EnsuresLocal {
+			if localHits[c.Label] == 0 {
+				// a clause over locals that no return path reaches would be checked nowhere
+				x.fail("ensureslocal [%s] names a local that is in scope at no return of %s", c.Label, key)
+			}
+		}
+	}
 	if spec != nil {
 		x.frameObligations(fr, out, spec, "")
 	}
